@@ -1,6 +1,3 @@
-import Infretis.Model.Proto
-open Infretis.Proto
+import Infretis.Model.RepexProto
 
-def handle (_toks : List String) : String := "bad-op"
-
-def main : IO Unit := mainWith handle
+def main : IO Unit := Infretis.Repex.repexMain
